@@ -14,7 +14,7 @@ def sh(cmd, cwd=VERIF):
 
 
 def main():
-    base = os.path.join(VERIF, "neutral")
+    base = os.path.join(VERIF, os.environ.get("WWV_NEUTRAL_DIR", "neutral"))
     ids = [a for a in sys.argv[1:] if not a.startswith("--")] or sorted(os.listdir(base))
     props = [c["property_id"] for c in json.load(open(os.path.join(VERIF, "MANIFEST.json")))["checks"]]
     only = [a[8:].split(",") for a in sys.argv[1:] if a.startswith("--props=")]
@@ -40,11 +40,11 @@ def main():
                 if rc != 0:
                     alarms[p] = re.findall(r"^  key=(.+)$", out, re.M) or ["rc=%d %s" % (rc, out[-300:])]
             results[i] = alarms
-            print(i, "SILENT" if not alarms else "FALSE ALARM %s" % {k: v[:3] for k, v in alarms.items()})
+            sys.stdout.flush(); print(i, "SILENT" if not alarms else "FALSE ALARM %s" % {k: v[:3] for k, v in alarms.items()})
         finally:
             sh("git checkout -- .", REPO)
             sh("git clean -fdq contracts packages", REPO)
-    json.dump(results, open(os.path.join(VERIF, "selftest", "neutral_results.json"), "w"), indent=1)
+    json.dump(results, open(os.path.join(VERIF, "selftest", "%s_results.json" % os.environ.get("WWV_NEUTRAL_DIR", "neutral")), "w"), indent=1)
     bad = sum(1 for v in results.values() if v)
     print("silent on %d of %d refactorings" % (len(results) - bad, len(results)))
     return 0
